@@ -376,12 +376,15 @@ func runSchedTest(t *testing.T, sp schedSpec) {
 				// takes the lock (whatever it has read by then may be stale), every other command
 				// runs to completion, then the stopped one goes on
 				a := uni(rt, n, "stale.who")
-				pts, lastAcq := w.parkCandidatesEx(cmds[a].Op)
+				pts, lastAcq, firstUn := w.parkCandidatesGap(cmds[a].Op)
 				var pre []Inject
 				if lastAcq > 0 {
 					// every point before the command's LAST lock acquisition: also the gap between
 					// two lock sections of one command
 					pre = pts[:lastAcq]
+					if firstUn >= 0 && firstUn < lastAcq && pct(rt, 60, "stale.gap") {
+						pre = pts[firstUn:lastAcq]
+					}
 				}
 				if len(pre) > 0 {
 					for i := range cmds {
@@ -397,6 +400,61 @@ func runSchedTest(t *testing.T, sp schedSpec) {
 					}
 					actions = append(actions, SchedAction{"resume", a}, SchedAction{"resume", a})
 					stats.Label("schedule.stale_validation_template")
+				}
+			}
+			switch tpl := uni(rt, 100, "template.more"); {
+			case tpl < 12 && n >= 2:
+				// lock-holder template: one command is stopped right inside its lock section, all
+				// others run (they must bounce off with lock busy, whatever else happens - an
+				// `init` that recreates the lock file included), then the holder goes on
+				a := uni(rt, n, "holder.who")
+				if pts, lastAcq := w.parkCandidatesEx(cmds[a].Op); lastAcq >= 0 && lastAcq < len(pts) {
+					hi := lastAcq + uni(rt, min(4, len(pts)-lastAcq), "holder.at")
+					for i := range cmds {
+						cmds[i].Park = nil
+					}
+					p := pts[hi]
+					cmds[a].Park = &p
+					actions = []SchedAction{{"start", a}}
+					if pct(rt, 50, "holder.init") {
+						// a bystander re-runs init while the lock is held (it must not disturb it)
+						cmds = append(cmds, ConcCmd{Op: Op{N: 1000 + len(cmds), Kind: "init"}})
+						actions = append(actions, SchedAction{"start", len(cmds) - 1})
+					}
+					for i := range cmds {
+						if i != a && cmds[i].Op.Kind != "init" {
+							actions = append(actions, SchedAction{"start", i})
+						}
+					}
+					actions = append(actions, SchedAction{"resume", a}, SchedAction{"resume", a})
+					stats.Label("schedule.lock_holder_template")
+				}
+			case tpl < 24 && n >= 2:
+				// held-lock-in-the-gap template: command b is stopped somewhere before its LAST
+				// lock acquisition (for a command with two lock sections: possibly between them),
+				// command a is then stopped holding the lock, b goes on and meets the held lock
+				b := uni(rt, n, "gap.who")
+				a := (b + 1 + uni(rt, n-1, "gap.other")) % n
+				ptsB, lastB, unB := w.parkCandidatesGap(cmds[b].Op)
+				ptsA, lastA := w.parkCandidatesEx(cmds[a].Op)
+				if lastB > 0 && lastA >= 0 {
+					for i := range cmds {
+						cmds[i].Park = nil
+					}
+					pb := ptsB[uni(rt, lastB, "gap.at")]
+					if unB >= 0 && unB < lastB && pct(rt, 75, "gap.real") {
+						// the command has two lock sections: aim between them
+						pb = ptsB[unB+uni(rt, lastB-unB, "gap.between")]
+					}
+					pa := ptsA[lastA]
+					cmds[b].Park, cmds[a].Park = &pb, &pa
+					actions = []SchedAction{{"start", b}, {"start", a}, {"resume", b}, {"resume", b}, {"resume", a}, {"resume", a}}
+					for i := range cmds {
+						if i != a && i != b {
+							actions = append(actions, SchedAction{"start", i})
+						}
+					}
+					stats.Label("schedule.held_lock_in_the_gap_template")
 				}
 			}
 			sr := w.runSchedule(cmds, actions)
